@@ -12,7 +12,7 @@ from mc import core, e1, grammar, values, refmodel
 
 ID = 'C11'
 META = {
-    'rule': "all ordered pairs (thorough: plus triples) over a pool of 20 deliberately overlapping member types, each in 15 nesting "
+    'rule': "all ordered pairs (thorough: plus triples) over a pool of 20 deliberately overlapping member types, each in 17 nesting "
             "forms (plain, nested Union, Optional outside / inside, list element, dict value, Annotated, dataclass field, generic "
             "dataclass field with the type variable on either side, after subscription) x the union of the members' own members and "
             "single-deviation neighbours; member order is read from typing.get_args of the spelled union; the result must be "
@@ -22,7 +22,7 @@ META = {
             "Non-trivial: at least two members accept the value, or the accepting member is not the first; key = (A, B, form, index of winner, #accepting).",
     'assumptions': ["members that raise a foreign exception alone are C04's business and the cell is skipped",
                     "serialisation oracle is behavioural (a member 'accepts x' if it round-trips x), see DESIGN.md C11"],
-    'bounds': {'quick': '20 x 19 ordered pairs x 10 forms', 'thorough': 'pairs + 20 x 19 x 6 triples x 4 forms'},
+    'bounds': {'quick': '20 x 19 ordered pairs x 17 forms', 'thorough': 'pairs + 20 x 19 x 6 triples x 4 forms'},
 }
 
 POOL = ['int', 'float', 'complex', 'bool', 'str', 'none', ['list', 'int'], ['list', 'float'], ['tuple', 'int', 'int'],
